@@ -1176,6 +1176,14 @@ def _upb(name):
         pl, mi = (z0 + z1) / s2, (z0 - z1) / s2
         k3 = lambda a, b, c: np.kron(np.kron(a, b), c)  # noqa: E731
         return [k3(z0, z0, z0), k3(pl, z1, mi), k3(z1, mi, pl), k3(mi, pl, z1)], [2, 2, 2]
+    if name in ("tiles-x-qubit", "qubit-x-tiles", "shifts-x-qutrit"):
+        # three parties with unequal, non-palindromic local dimensions: a UPB tensored with a complete basis of one more party is a UPB
+        base, bd = _upb("tiles" if "tiles" in name else "shifts")
+        k = 3 if name == "shifts-x-qutrit" else 2
+        basis = [_ket(k, i) for i in range(k)]
+        if name == "qubit-x-tiles":
+            return [np.kron(b, v) for b in basis for v in base], [k] + bd
+        return [np.kron(v, b) for v in base for b in basis], bd + [k]
     if name == "pyramid":
         h = np.sqrt(1 + np.sqrt(5)) / 2
         N = 2 / np.sqrt(5 + np.sqrt(5))
@@ -2255,7 +2263,7 @@ def cases(tier, seed):
         for colv in (False, True):
             add("stateset.mixed_dtype", dict(d=d_, column=colv), "state-sets/mixed-dtype-list")
     # unextendible product bases
-    for name, size in (("tiles", 5), ("shifts", 4), ("pyramid", 5)):
+    for name, size in (("tiles", 5), ("shifts", 4), ("pyramid", 5), ("tiles-x-qubit", 10), ("qubit-x-tiles", 10)) + ((("shifts-x-qutrit", 12),) if thorough else ()):
         add("is_unextendible_product_basis.true", dict(v="upb", upb=name, n=size, cx=False, seed=0), "is_unextendible_product_basis/%s" % name)
         for k in range(size):
             add("is_unextendible_product_basis.false", dict(v="one-removed", upb=name, k=k, n=size, cx=False, seed=0), "is_unextendible_product_basis/%s-one-removed" % name)
